@@ -1,7 +1,7 @@
 """C06: tasks — decided on the L1 machine (theorem Ivy.Props.C06.monitor_accepts) + T-replay correspondence."""
-from . import l1, loopgen
+from . import l1, loopgen, c06list
 PROP = "C06"
-LEANCHECK_MODULES = ["Ivy.L1.Machine", "Ivy.L1.Exec", "Ivy.Mon.C06", "Ivy.L1.ProofsC06", "Ivy.Props.C06"]
+LEANCHECK_MODULES = ["Ivy.L1.Machine", "Ivy.L1.Exec", "Ivy.Mon.C06", "Ivy.L1.ProofsC06", "Ivy.Props.C06", "Ivy.L0.ListPtr", "Ivy.L0.ListPtrProofs", "Ivy.Props.C06list"]
 FAMILIES = ["tasks", "mix"]
 RULE = ("scenario families 'tasks' (self/mutual re-registration chains, stale/fresh epochs, registration from descriptor/timer/event "
         "handlers, free+reinit of task structs inside handlers) and 'mix', rotating over the four poll methods and fault configurations; every "
@@ -29,6 +29,9 @@ STARVE_RULE = ("; plus the ENUMERATED family 'starve' (every run): a self-re-reg
                "posted during the busy period, on all four methods, with and without a timer descriptor; the monitors of C04, C02 and C03 "
                "(timers never late, readiness not lost, handlers only for reported conditions) judge the same logs")
 
+LIST_RULE = ("; plus a differential run of iv_list.h / __iv_list_steal_elements (harness/list_h.c) against the pointer-level model Ivy.L0.ListPtr "
+             "(refinement to Lean lists proved in Ivy.Props.C06list) on random op files, with an independent ring oracle")
+
 
 def starve_cases(seed):
     import random
@@ -52,12 +55,19 @@ def starve_cases(seed):
 
 
 def run(tier, seed, proof):
-    return l1.run_property(PROP, tier, seed, proof, FAMILIES, MONS, [], nontrivial, RULE + STARVE_RULE,
-                           extra_cases=lambda tier, seed: starve_cases(seed))
+    res = l1.run_property(PROP, tier, seed, proof, FAMILIES, MONS, [], nontrivial, RULE + STARVE_RULE + LIST_RULE,
+                          extra_cases=lambda tier, seed: starve_cases(seed))
+    # the intrusive list the task queue (and every other queue of the library) is built from: pointer-level model, differential run
+    if proof["driver_ok"]:
+        c06list.check(tier, seed, res)
+    return res
 
 
 def search(tier, seed, proof):
     return l1.search_property(PROP, tier, seed, ["tasks"], MONS, [])
 
 
-replay = l1.replay
+def replay(path):
+    if path.endswith(".listops") or "C06:list:" in open(path).read():
+        return c06list.replay(path)
+    return l1.replay(path)
